@@ -9,6 +9,7 @@
 package polcfg
 
 import (
+	"encoding/hex"
 	"fmt"
 	"net/netip"
 	"strings"
@@ -79,6 +80,17 @@ func Build(pols sx.Node, prefix string) (oc.DefinedSets, []oc.PolicyDefinition, 
 					cs := oc.CommunitySet{CommunitySetName: name}
 					for _, e := range c.List[2:] {
 						cs.CommunityList = append(cs.CommunityList, comm(e.Uint()))
+					}
+					ds.BgpDefinedSets.CommunitySets = append(ds.BgpDefinedSets.CommunitySets, cs)
+					o := map[uint64]oc.MatchSetOptionsType{0: oc.MATCH_SET_OPTIONS_TYPE_ANY, 1: oc.MATCH_SET_OPTIONS_TYPE_ALL, 2: oc.MATCH_SET_OPTIONS_TYPE_INVERT}[c.At(1).Uint()]
+					s.Conditions.BgpConditions.MatchCommunitySet = oc.MatchCommunitySet{CommunitySet: name, MatchSetOptions: o}
+				case "commre":
+					// (commre opt <hex of a member text>...): members that are regular expressions (or literals), as a configuration file has them
+					name := fresh("cs")
+					cs := oc.CommunitySet{CommunitySetName: name}
+					for _, e := range c.List[2:] {
+						b, _ := hex.DecodeString(e.Atom)
+						cs.CommunityList = append(cs.CommunityList, string(b))
 					}
 					ds.BgpDefinedSets.CommunitySets = append(ds.BgpDefinedSets.CommunitySets, cs)
 					o := map[uint64]oc.MatchSetOptionsType{0: oc.MATCH_SET_OPTIONS_TYPE_ANY, 1: oc.MATCH_SET_OPTIONS_TYPE_ALL, 2: oc.MATCH_SET_OPTIONS_TYPE_INVERT}[c.At(1).Uint()]
